@@ -507,3 +507,50 @@ func onErrorReturnsErrExceptVoid(fn *ssa.Function, s ssa.CallInstruction, except
 	}
 	return true, true, "unreachable from the err!=nil edge once the NotFound classifier edge is removed"
 }
+
+// C02.R8 — the scheduling paths (filter, bind, preempt, pod-ip sync) never release or reserve an ip: freeing and
+// re-keying to the reserve happen only on the unbind / release-API / resync paths. Call-graph reachability.
+func ruleSchedulingNeverReleases(c *Ctx, rule string) {
+	la := c.locks()
+	for _, name := range []string{"(*FloatingIPPlugin).Bind", "(*FloatingIPPlugin).Filter", "(*FloatingIPPlugin).Preempt", "(*FloatingIPPlugin).syncPodIP"} {
+		root := c.MustFn(rule, spPkg, name)
+		if root == nil {
+			continue
+		}
+		seen := map[*ssa.Function]bool{}
+		var bad ssa.CallInstruction
+		var chain []string
+		var rec func(f *ssa.Function, path []string)
+		rec = func(f *ssa.Function, path []string) {
+			if seen[f] || bad != nil {
+				return
+			}
+			seen[f] = true
+			for _, x := range calls(f, "IPAM).Release", "IPAM).ReleaseIPs", "IPAM).ReserveIP") {
+				bad = x
+				chain = append(append([]string{}, path...), fnName(f))
+				return
+			}
+			fi := la.info[f]
+			if fi == nil {
+				return
+			}
+			for in, gs := range fi.callees {
+				if _, isGo := in.(*ssa.Go); isGo {
+					continue
+				}
+				for _, g := range gs {
+					if g.Pkg != nil && g.Pkg.Pkg.Path() == modPath+spPkg {
+						rec(g, append(path, fnName(f)))
+					}
+				}
+			}
+		}
+		rec(root, nil)
+		d := fmt.Sprintf("%d functions of the package reachable synchronously, none calls IPAM.Release/ReleaseIPs/ReserveIP", len(seen))
+		if bad != nil {
+			d = "reaches " + calleeName(bad) + " through " + fmt.Sprint(chain)
+		}
+		c.ob(rule, root, "scheduling path never frees or reserves an ip", bad, bad == nil, d)
+	}
+}
